@@ -361,7 +361,27 @@ func (in *inliner) iife(h *ast.FuncDecl, args []ast.Expr) ast.Expr {
 	if h.Type.Params != nil {
 		ft.Params.List = append(ft.Params.List, h.Type.Params.List...)
 	}
-	return &ast.CallExpr{Fun: &ast.ParenExpr{X: &ast.FuncLit{Type: ft, Body: cloneNode(h.Body).(*ast.BlockStmt)}}, Args: args}
+	return &ast.CallExpr{Fun: &ast.FuncLit{Type: ft, Body: cloneNode(h.Body).(*ast.BlockStmt)}, Args: args}
+}
+
+// a `defer` (or `recover`) ties a helper's statements to its own frame: such a helper is only
+// ever inlined as an immediately invoked literal
+func hasDefer(b *ast.BlockStmt) bool {
+	found := false
+	ast.Inspect(b, func(x ast.Node) bool {
+		switch y := x.(type) {
+		case *ast.FuncLit:
+			return false
+		case *ast.DeferStmt:
+			found = true
+		case *ast.CallExpr:
+			if id, ok := y.Fun.(*ast.Ident); ok && id.Name == "recover" {
+				found = true
+			}
+		}
+		return !found
+	})
+	return found
 }
 
 func containsReturn(n ast.Node) bool {
@@ -442,7 +462,7 @@ func (in *inliner) splice(s ast.Stmt) []ast.Stmt {
 			return nil, nil, nil, nil
 		}
 		h, args := in.helperOf(c)
-		if h == nil {
+		if h == nil || hasDefer(h.Body) {
 			return nil, nil, nil, nil
 		}
 		n, finalOnly := countReturns(h.Body)
@@ -466,7 +486,7 @@ func (in *inliner) splice(s ast.Stmt) []ast.Stmt {
 			return nil
 		}
 		h, args := in.helperOf(c)
-		if h == nil {
+		if h == nil || hasDefer(h.Body) {
 			return nil
 		}
 		if _, finalOnly := countReturns(h.Body); finalOnly {
@@ -523,7 +543,7 @@ func (in *inliner) splice(s ast.Stmt) []ast.Stmt {
 			}
 			// `return h(a)` with a helper that returns early: its body, returns and all
 			if c, ok := st.Results[0].(*ast.CallExpr); ok {
-				if h, args := in.helperOf(c); h != nil {
+				if h, args := in.helperOf(c); h != nil && !hasDefer(h.Body) {
 					if _, finalOnly := countReturns(h.Body); !finalOnly {
 						in.Inlined[h.Name.Name]++
 						return in.instantiate(h, args)
